@@ -751,6 +751,7 @@ impl<'t> Gen<'t> {
             crash: None,
             range_cases: vec![],
             client_grace_us: 0,
+            stream_until_failure: false,
         }
     }
 }
